@@ -27,14 +27,17 @@ type Val struct {
 
 // Place describes where a pointer value points, when known syntactically.
 type Place struct {
-	Kind   int // 0 generic, 1 field, 2 leaf-array element
-	Ptr    string
-	Base   string        // field: struct pointer ; elem: array pointer
-	Struct *types.Struct // field
-	Named  types.Type    // field: the (named) struct type
-	Idx    int           // field index
-	Index  string        // elem index term
-	Priv   string        // private cell key (Kind 5)
+	Kind    int // 0 generic, 1 field, 2 leaf-array element
+	Ptr     string
+	Base    string        // field: struct pointer ; elem: array pointer
+	Struct  *types.Struct // field
+	Named   types.Type    // field: the (named) struct type
+	Idx     int           // field index
+	Index   string        // elem index term
+	Priv    string        // private cell key (Kind 5)
+	Root    types.Type    // field: struct type at which the chain of non-escaping struct-valued fields starts
+	RootPtr string        // field: pointer to that struct
+	Path    string        // field: index path below Root, e.g. "2.0"
 }
 
 func app(f string, args ...string) string {
